@@ -89,6 +89,23 @@ def scan_sources():
     return hits
 
 
+def _error_excerpt(out, limit=20000):
+    """the error lines of a Lean / lake run (file:line:col: error … up to the next message), then the tail"""
+    lines = out.split("\n")
+    keep, on = [], False
+    for ln in lines:
+        if re.match(r"^(error:|\S+\.lean:\d+:\d+: error)", ln):
+            on = True
+        elif re.match(r"^(warning:|info:|\S+\.lean:\d+:\d+: (warning|info)|✔|ℹ|⚠|✖)", ln):
+            on = ln.startswith("✖")
+        if on:
+            keep.append(ln)
+    txt = "\n".join(keep)
+    if len(txt) > limit:
+        txt = txt[:limit] + "\n…"
+    return txt + "\n--- tail ---\n" + out[-3000:]
+
+
 def lean_gate(ctx, module):
     """Build the library, re-elaborate the property module and audit the axioms of every theorem
     it lists with `#print axioms`.  Returns dict(obligations, discharged, theorems, checker_cmd).
@@ -96,11 +113,11 @@ def lean_gate(ctx, module):
     # only the property module and what it imports: a broken sibling module must not fail this check
     rc, out = lake_build([module])
     if rc != 0:
-        raise LeanGateError("lake build failed:\n" + out[-3000:])
+        raise LeanGateError("lake build failed:\n" + _error_excerpt(out))
     path = os.path.join("ColaVerif", *module.split(".")[1:]) + ".lean"
     rc, so, se = sh(["lake", "env", "lean", path], cwd=LEAN_DIR, timeout=3000)
     if rc != 0:
-        raise LeanGateError(f"{path} does not elaborate:\n" + (so + se)[-3000:])
+        raise LeanGateError(f"{path} does not elaborate:\n" + _error_excerpt(so + se))
     theorems = {}
     txt = so.replace("\n  ", " ")
     for m in re.finditer(r"'(\S+)' depends on axioms: \[([^\]]*)\]", txt):
